@@ -51,7 +51,8 @@ def scratch(name):
 
 
 def load_known():
-    if not os.path.exists(KNOWN):
+    # VERIF_IGNORE_KNOWN=1 is a diagnosis aid (selftests / triage of a candidate repair): every failure is then reported
+    if not os.path.exists(KNOWN) or os.environ.get("VERIF_IGNORE_KNOWN") == "1":
         return []
     with open(KNOWN) as f:
         return json.load(f).get("findings", [])
